@@ -49,14 +49,15 @@ Notation enable_pv_scoring := (enable_pv_scoring mv_eqb null_mv).
 Definition bal (e e' : env) : Prop :=
   ply e' = ply e /\ ridx e' = ridx e /\ firstn (ridx e) (rtab e') = firstn (ridx e) (rtab e) /\
   length (rtab e') = length (rtab e) /\ (nodes e <= nodes e')%N /\ (npolls e <= npolls e')%nat /\
-  (stopping e = true -> stopping e' = true).
+  (stopping e = true -> stopping e' = true) /\
+  ((forall k, stop_at k = false) -> stopping e' = stopping e).
 
 Lemma bal_refl e : bal e e.
-Proof. unfold bal. repeat split; try reflexivity; try lia. auto. Qed.
+Proof. unfold bal. repeat split; try reflexivity; try lia; auto. Qed.
 Lemma bal_trans a b c : bal a b -> bal b c -> bal a c.
 Proof.
-  unfold bal. intros (H1&H2&H3&H4&H5&H6&H7) (K1&K2&K3&K4&K5&K6&K7). rewrite H2 in K3.
-  repeat split; try congruence; try lia. auto.
+  unfold bal. intros (H1&H2&H3&H4&H5&H6&H7&H8) (K1&K2&K3&K4&K5&K6&K7&K8). rewrite H2 in K3.
+  repeat split; try congruence; try lia; auto. intros N. rewrite (K8 N), (H8 N). reflexivity.
 Qed.
 
 Ltac easy_bal := unfold bal; cbn; repeat split; try reflexivity; try lia; auto.
@@ -73,7 +74,8 @@ Lemma bal_insert_pv e m : bal e (insert_pv e m). Proof. easy_bal. Qed.
 
 Lemma bal_poll e : bal e (poll e).
 Proof.
-  unfold poll. cbn zeta. destruct (stop_at (npolls e) && negb (stopping e)); unfold bal; cbn; repeat split; try lia; intros ->; reflexivity.
+  unfold poll. cbn zeta. destruct (stop_at (npolls e) && negb (stopping e)); unfold bal; cbn; repeat split; try lia;
+    try (intros ->; reflexivity); intros N; rewrite N; apply orb_false_r.
 Qed.
 Lemma bal_maybe_poll e : bal e (maybe_poll e).
 Proof. unfold Search.maybe_poll. destruct (pollp _); [apply bal_poll|apply bal_refl]. Qed.
@@ -119,7 +121,7 @@ Lemma bal_push_pop e k e3 :
   bal (set_ply (rep_insert e k) (S (ply (rep_insert e k)))) e3 ->
   bal e (rep_back (set_ply e3 (pred (ply e3)))).
 Proof.
-  unfold bal. cbn [ply ridx rtab nodes npolls stopping set_ply rep_insert rep_back set_rep]. intros (H1&H2&H3&H4&H5&H6&H7).
+  unfold bal. cbn [ply ridx rtab nodes npolls stopping set_ply rep_insert rep_back set_rep]. intros (H1&H2&H3&H4&H5&H6&H7&H8).
   rewrite H1, H2. cbn [Nat.pred]. repeat split; try lia; auto.
   - assert (H : firstn (ridx e) (firstn (S (ridx e)) (rtab e3)) =
                 firstn (ridx e) (firstn (S (ridx e)) (updl (rtab e) (ridx e) k))) by (rewrite H3; reflexivity).
@@ -138,7 +140,7 @@ Qed.
 
 Lemma bal_set_ply_back e e4 : bal (set_ply e (S (ply e))) e4 -> bal e (set_ply e4 (pred (ply e4))).
 Proof.
-  unfold bal. cbn [ply ridx rtab nodes npolls stopping set_ply]. intros (H1&H2&H3&H4&H5&H6&H7). rewrite H1. cbn [Nat.pred].
+  unfold bal. cbn [ply ridx rtab nodes npolls stopping set_ply]. intros (H1&H2&H3&H4&H5&H6&H7&H8). rewrite H1. cbn [Nat.pred].
   repeat split; try assumption.
 Qed.
 
@@ -396,6 +398,18 @@ Proof.
   pose proof (id_loop_ok (S (max_depth_of depth)) g 1 (max_depth_of depth) (- INFINITY)%Z INFINITY 0%Z e0 [] eq_refl) as H.
   destruct (id_loop _ g 1 _ _ _ _ e0 []) as [outs e s|]; [|destruct H].
   exists outs, e, s. split; [reflexivity|]. destruct H as (H1&H2&H3&H4&_). cbn in H1, H2, H3, H4. auto.
+Qed.
+
+(* a search that no poll ever tells to stop is not stopped when it ends *)
+Theorem search_never_stopped g depth t rt ri :
+  (forall k, stop_at k = false) ->
+  match search g depth t rt ri with SDone _ e _ => stopping e = false | SFuel => False end.
+Proof.
+  intros N. unfold Search.search.
+  set (e0 := @init_env pos move null_mv t rt ri).
+  pose proof (id_loop_ok (S (max_depth_of depth)) g 1 (max_depth_of depth) (- INFINITY)%Z INFINITY 0%Z e0 [] eq_refl) as H.
+  destruct (id_loop _ g 1 _ _ _ _ e0 []) as [outs e s|]; [|exact H].
+  destruct H as (_&_&_&_&_&_&_&H8). rewrite (H8 N). reflexivity.
 Qed.
 
 End Balance.
